@@ -950,12 +950,12 @@ func veBlockedGoroutines() string {
 		keep := []string{lines[0]}
 		frames := 0
 		for i := 1; i+1 < len(lines); i += 2 {
-			if strings.Contains(lines[i], "spq/pkappa2") {
+			if strings.Contains(lines[i], "spq/pkappa2") && !strings.HasPrefix(lines[i], "created by") {
 				keep = append(keep, lines[i], lines[i+1])
 				frames++
 			}
 		}
-		if frames == 1 && strings.Contains(g, "converters.(*Process).run(") && strings.Contains(lines[0], "chan receive") {
+		if frames <= 2 && strings.Contains(g, "converters.(*Process).run(") && strings.Contains(g, "process.go:168") {
 			idle++
 			continue
 		}
